@@ -19,7 +19,7 @@ Strings == { Str(S(x)) : x \in { "NULL", "null", "True", "FALSE", "END", "end", 
                                  "12:00+01", "12:00-01", "2001-01-01T12:00-05:30", "a", "a_b", "a-b", "N/A", "a:b", "^P", "x+y", "a b", " a", "a ", "a  b", "it's", "say \"x\"",
                                  "a=b", "a,b", "(a)", "{a}", "<m>", "a;b", "a&b", "/* c */", "a/*b", "*/", "# c", "a#b", "x-", "-" } }
            \cup { Str(<<>>), Str(S("a") \o <<9>> \o S("b")), Str(S("a") \o LF \o S("b")), Str(S("a") \o <<13, 10>> \o S("b")),
-                  Str(S("a-") \o LF \o S("b")), Str(S("x") \o <<11>> \o S("y")), Str(S("both ' and \"")), Str(<<1>>), Str(S("a") \o <<0>> \o S("b")), Str(<<160>>), Str(S("x") \o <<160>>), Str(<<233>>), Str(<<176, 67>>), Str(<<8364>>),
+                  Str(S("a-") \o LF \o S("b")), Str(S("x") \o <<11>> \o S("y")), Str(S("both ' and \"")), Str(<<1>>), Str(S("a") \o <<0>> \o S("b")), Str(<<160>>), Str(S("x") \o <<160>>), Str(S("x") \o <<159>>), Str(<<127>>), Str(<<255>>), Str(<<256>>), Str(<<233>>), Str(<<176, 67>>), Str(<<8364>>),
                   Str(S("about 5") \o <<160>> \o S("km wide")), Str(S("alpha") \o <<31>> \o S("beta gamma")), Str(S("x") \o <<28>> \o S(" y")),
                   Str(S("5 - ") \o LF \o S("10")), Str(S("5 -") \o <<9>> \o LF \o S("  10")), Str(S("tab") \o <<9, 9>> \o S("tab")),
                   Str(S("word word word word word word word word word word word word word word word word word word word word")),
@@ -59,7 +59,9 @@ ItemCP(k, v) == N("item", k, <<v>>)
 Special == { Mod(<<Item("a", One), Item("a", IntV("2")), Item("A", IntV("3"))>>),
              Mod(<<ItemCP(S("lines") \o <<10>>, One), Item("b", One)>>), Mod(<<ItemCP(S("two words"), One)>>),      \* names that are not names
              Mod(<<Item("end", One), Item("b", One)>>), Mod(<<Item("a", One), Item("Object", IntV("2"))>>), Mod(<<Item("null", One)>>),   \* reserved words as names
-             Mod(<<Item("end_group", Grp(<<Item("x", One)>>))>>),
+             Mod(<<Item("end_group", Grp(<<Item("x", One)>>))>>), Mod(<<Item("Begin_Group", One)>>), Mod(<<Item("BEGIN_OBJECT", Grp(<<Item("x", One)>>))>>),
+             Mod(<<Item("v", One), Item("g", Grp(<<Item("x", One)>>)), Item("g", IntV("2"))>>),      \* a group that shares its name with a later plain item, behind a plain item
+             Mod(<<Item("v", One), Item("w", One), Item("g", Grp(<<Item("x", One), Item("x", One)>>)), Item("w", IntV("2"))>>),
              Mod(<<Item("g", Grp(<<Item("x", One)>>)), Item("g", Grp(<<Item("x", IntV("2"))>>)), Item("a", One)>>),
              Mod(<<Item("g", Grp(<<Item("x", One), Item("x", IntV("2"))>>))>>),
              Mod(<<Item("g", Grp(<<Item("h", Grp(<<Item("x", One)>>))>>))>>),
